@@ -265,7 +265,7 @@ fn run_case(spec: &SenderSpec, objs: &[ObjSpec], script: &[(When, Op)], opts: &S
             cr.sample = Some(json!({"sender": run.spec.json(), "objects": run.objs.iter().map(|o| o.json()).collect::<Vec<_>>(), "stream_head": run.summary(12), "transfers": nt}));
         }
     }
-    cr.violations.truncate(5);
+    limit(&mut cr.violations, 5);
 }
 
 fn main() {
